@@ -677,6 +677,9 @@ def check(pid, tier, jobs, only=None, keep=False, quiet=False):
                 tags = [rec['props'][0]]
                 if ob.get('cls') != 'assigns' and 'C18' in rec['props']:
                     tags.append('C18')
+                if 'iv_fatal unreachable' in (ob.get('description') or ''):
+                    # the process aborts on an input the contract admits: every property served by the unit is broken
+                    tags = list(rec['props'])
                 ob['tags'] = tags
             mine = pid in tags
             if not mine:
